@@ -138,7 +138,7 @@ type scratch struct {
 }
 
 // transitions executed (operations applied to a real object); added to the report in batches
-var transTotal int64
+var transTotal, abandoned int64
 
 type tmpl struct{ model, packed []uint64 }
 
@@ -297,6 +297,13 @@ func runHistory(c *Case, checkFrom int) {
 			model[op.I] = uint64(op.V)
 		}
 		if !judged {
+			// replayed prefix (judged where it was the last operation): if it already broke the
+			// target the history is abandoned silently instead of blaming the next operation
+			var g int
+			if _, _, p := engine.Guard(func() { g = bs.Get(op.I) }); p || uint64(g) != model[op.I] {
+				atomic.AddInt64(&abandoned, 1)
+				return
+			}
 			continue
 		}
 		if op.Kind != "Set" && uint64(ret) != old {
@@ -976,6 +983,7 @@ func main() {
 	rep.Count("ordered_pair_cases", prodPairs)
 	rep.Count("rejected_call_cases", prodRejects)
 	rep.Count("b0_calls_with_unspecified_panic_behaviour", zeroUnspec)
+	rep.Count("histories_abandoned_silently_because_a_replayed_(already_judged)_operation_broke_its_target", abandoned)
 	rep.Unspec(zeroUnspec)
 	rep.Extra("bfs_fixpoint", true)
 	rep.Extra("bfs_max_depth", bfsMaxDepth)
